@@ -17,6 +17,7 @@ Definition T2_exp (S : V3 R) (th : R) : option (M33 R) :=
 
 Lemma sqrt3_scale a b c th : sqrt (a*a*(th*th) + b*b*(th*th) + c*c*(th*th)) = Rabs th * sqrt (a*a + b*b + c*c).
 Proof. rewrite <- sqrt_sq_abs, <- sqrt_mult_alt by nra. f_equal. ring. Qed.
+Print Assumptions sqrt3_scale.
 
 (* ---------------------------------------------------------------- path conditions *)
 Lemma C18_T2_pc_zero_iff : forall v0 v1 w th,
@@ -71,6 +72,7 @@ Proof.
   rewrite Hz. assert (Hr : pc_tr_T2_exp_rev Rops (v0,v1,1) th = true) by now apply C18_T2_pc_rev_unit.
   rewrite Hr. now rewrite C18_T2_exp_rev_closed_form.
 Qed.
+Print Assumptions T2_exp_unit_main.
 
 (* coverage for a planar revolute twist: zero path, main path, or the threshold band *)
 Theorem C18_T2_exp_rev_coverage : forall v0 v1 th,
@@ -129,6 +131,7 @@ Proof.
   assert (tiny <= Rabs (-3)) by (rewrite Rabs_left by lra; unfold tiny; lra). split; [assumption|].
   unfold revolute2_tw. sm_simpl. now apply C18_T2_pc_rev_unit.
 Qed.
+Print Assumptions C18_T2_nonvacuous.
 
 (* ---------------------------------------------------------------- prismatic *)
 Theorem C18_T2_exp_pris_closed_form : forall d0 d1 th, d0*d0 + d1*d1 = 1 -> tiny <= Rabs th ->
@@ -211,3 +214,14 @@ Proof.
   rewrite <- (screw2_zero (v0,v1,1)). pose proof (cs_unit th). f_equal; nsatz.
 Qed.
 Print Assumptions C18_T2_exp_inv.
+
+(* exp of the se(2) matrix form = exp of the twist (theta = 1), on the main path of trexp2 *)
+Theorem C18_T2_exp_se2_form : forall S, pc_tr_trexp2_se2_rev Rops S = true ->
+  tr_trexp2_se2_rev Rops S = tr_T2_exp_rev Rops S 1.
+Proof.
+  intros [[v0 v1] w] H. gen_unfold. fold tiny in H. pc_props H. pose proof tiny_pos as Ht.
+  assert (Hw : w <> 0) by (intro; subst; rewrite Rabs_R0 in *; lra).
+  assert (Ha : Rabs w <> 0) by (apply Rabs_no_R0; exact Hw).
+  rewrite ?Rmult_1_r. tuple_eq ltac:(field; auto).
+Qed.
+Print Assumptions C18_T2_exp_se2_form.
